@@ -754,6 +754,16 @@ def f38_import_comment_ends_with_backslash(c, src, out):
     return False
 
 
+def frame_violation(ctx, c, name, src, out, detail):
+    """report a frame failure of a CLI stream: the same known-finding classifier as the API path (F38 depends
+    on the input text only), anything else is a violation"""
+    if f38_import_comment_ends_with_backslash(c, src, out):
+        ctx.known_hit("F38", "blank/comment lines after an import statement whose same-line comment ends with a backslash are dropped with the import, e.g. %r" % detail[-110:])
+        ctx.bump("F38")
+    else:
+        ctx.violation(name, short(c), detail)
+
+
 def f39_insert_after_unterminated_prologue(c, src, out):
     """classifier of known finding F39 (C03 no_gluing): the module is nothing but prologue
     (comments, blanks, string literal statements) and does not end with a newline; the new import
@@ -939,7 +949,7 @@ def compare_one(ctx, c, im, mvs):
         for s1, o1 in zip(c["srcs"], im["singles"]):
             r1 = frame_oracle(s1, o1, None)
             if r1 is not None and r1[0] == "frame":
-                ctx.violation("reformat_frame", short(c), r1[1])
+                frame_violation(ctx, c, "reformat_frame", s1, o1, r1[1])
         ctx.count(short(c), True)
         return
     if c["tool"] == "cli_streams":
@@ -952,7 +962,7 @@ def compare_one(ctx, c, im, mvs):
             ctx.bump("cli_streams_no_message_logged")
         r1 = frame_oracle(src, base, None)
         if r1 is not None and r1[0] in ("frame", "unparsable"):
-            ctx.violation("edit_frame/insert_frame", short(c), "--print output (baseline streams): %s" % r1[1])
+            frame_violation(ctx, c, "edit_frame/insert_frame", src, base, "--print output (baseline streams): %s" % r1[1])
         for variant, text in sorted(im["variants"].items()):
             if text != base:
                 ctx.violation("edit_frame/insert_frame", short(c), "tidy-imports --print with %s: stdout is not the rewritten program: %r (expected %r)"
@@ -966,7 +976,7 @@ def compare_one(ctx, c, im, mvs):
         if not c["cli_flags"]["canonicalize"]:
             r1 = frame_oracle(src, im["with_pyproject"], None)
             if r1 is not None and r1[0] == "frame":
-                ctx.violation("edit_frame/insert_frame", short(c), r1[1])
+                frame_violation(ctx, c, "edit_frame/insert_frame", src, im["with_pyproject"], r1[1])
         ctx.count(short(c), True)
         return
     # ---- oracle
